@@ -1229,6 +1229,10 @@ def run(ctx):
 
     from .common import redirect_target_guarded_rule
     redirect_target_guarded_rule(ctx, 'C09-D3')
+    from .common import surrogate_to_strict_encode_lint
+    n_sur = surrogate_to_strict_encode_lint(ctx, 'C09-D3')
+    if n_sur < 2:
+        raise AnalysisError('expected the surrogateescape decodes of the FTP recorder session among the lint\'s instances (found %d)' % n_sur)
     # the robots.txt fetch follows redirects itself (no URL filter stands in between, as it does for pages): a Location with a scheme
     # the HTTP client cannot fetch (mailto:, ftp:, data:) must be turned down before the session is started on it - the client would
     # hand host None to the connection pool, whose assertion is no per-URL error
